@@ -460,8 +460,12 @@ def model_int(x=0, *a, **k):
     for v, w, wl, wh in reversed(items[kk:]):
         fixed = fixed + v * (10**fw)
         fw += wl
+    prov = _digit_provenance(s)
     if kk == 0:
-        return mkint(fixed)
+        r = mkint(fixed)
+        if isinstance(r, SymInt) and prov is not None:
+            r.src = prov
+        return r
     key = tuple((v.get_id(), wl, wh) for v, w, wl, wh in items[:kk])
     hit = ctx.int_memo.get(key)
     if hit is None:
@@ -483,7 +487,34 @@ def model_int(x=0, *a, **k):
         ctx.define(tv, T)
         hit = (tv, T, [v for v, _, _, _ in items[:kk]])
         ctx.int_memo[key] = hit
-    return mkint(hit[0] * (10**fw) + fixed)
+    r = mkint(hit[0] * (10**fw) + fixed)
+    if isinstance(r, SymInt) and prov is not None:
+        r.src = prov
+    return r
+
+
+def _digit_provenance(s):
+    """pieces of a parsed digit string usable to print the number again: single decimal-digit characters and
+    unpadded decimal pieces (as produced by str(int)); None if anything else occurs"""
+    out = []
+    for q in s.p:
+        if isinstance(q, Opt):
+            return None
+        if isinstance(q, Dec):
+            b = ival(q.v)
+            if b is None or b[0] < 0 or q.wlo != len(builtins.str(b[0])) or q.whi != len(builtins.str(b[1])):
+                return None  # zero-padded piece: its own leading zeros would need digit extraction
+            out.append(q)
+        elif isinstance(q, int):
+            if not (48 <= q <= 57):
+                return None
+            out.append(q)
+        else:
+            b = ival(q)
+            if b is None or b[0] < 48 or b[1] > 57:
+                return None
+            out.append(q)
+    return tuple(out)
 
 
 _BASE_TABLES = {}
@@ -527,8 +558,28 @@ def model_str(x="", *a):
     if isinstance(x, SymBool):
         raise Unmodelled("str(SymBool)")
     if isinstance(x, SymInt):
+        if x.src is not None:
+            return _str_from_provenance(x)
         return SymStr([dec_of(x.e)])
     return builtins.str(x)
+
+
+def _str_from_provenance(x):
+    """str(int(digits)): the digit string without its leading zeros (one fork per possible leading zero piece)"""
+    pieces = list(x.src)
+    i = 0
+    while i < len(pieces) - 1:
+        q = pieces[i]
+        if isinstance(q, int):
+            zero = q == 48
+        elif isinstance(q, Dec):
+            zero = ctx.choose(q.v == 0)
+        else:
+            zero = ctx.choose(q == 48)
+        if not zero:
+            break
+        i += 1
+    return mkstr(pieces[i:])
 
 
 def dec_of(e):
